@@ -367,12 +367,20 @@ class CoopLock:
             self.count += 1
             return True
         sc = CUR
+        until = None
         while self.owner is not None:
             if sc is None or not sc.controlled():
                 raise RuntimeError("cooperative lock contended outside the scheduler")
             if not blocking:
                 return False
-            sc.yield_point(lambda: self.owner is None)
+            if timeout is not None and timeout >= 0:
+                # a bounded wait, in the scheduler's virtual time
+                until = sc.now + timeout if until is None else until
+                if until - sc.now <= 0 or not sc.yield_point(lambda: self.owner is None, timeout=until - sc.now):
+                    if self.owner is not None:
+                        return False
+            else:
+                sc.yield_point(lambda: self.owner is None)
         self.owner = me
         self.count = 1
         return True
